@@ -938,3 +938,82 @@ func c11r9(rc *core.RC) {
 		rc.Unknown("json/option-functions", token.NoPos, "found %d loops that apply option functions and %d functions that take them (confirmed: 5 and 8)", nLoops, nParams)
 	}
 }
+
+// ---- C11.R10 the caller's option list is read, never written ----
+
+// A variadic parameter `optFuncs ...EncodeOptionFunc` (or DecodeOptionFunc) is the caller's own slice when the call is
+// written f(v, opts[:n]...): an append to it with spare capacity stores into the caller's array behind the part that
+// was passed, and an element assignment changes the caller's list. What is stored there stays for the caller's next
+// call with the longer list (a closure over this call's context, for instance). Obligation, for every function of
+// the top-level package with a parameter that is a slice of option functions: the parameter is never the first
+// argument of append and no element of it is assigned.
+func c11r10(rc *core.RC) {
+	p := rc.P
+	pk := p.Pkg("json")
+	if pk == nil {
+		rc.Unknown("json/package", token.NoPos, "package json not loaded")
+		return
+	}
+	isOptSlice := func(t types.Type) bool {
+		sl, ok := t.Underlying().(*types.Slice)
+		if !ok {
+			return false
+		}
+		s := sl.Elem().String()
+		return strings.HasSuffix(s, "EncodeOptionFunc") || strings.HasSuffix(s, "DecodeOptionFunc") || strings.HasSuffix(s, "encoder.Option)") || strings.HasSuffix(s, "decoder.Option)")
+	}
+	n := 0
+	for _, fd := range p.Funcs("json") {
+		if fd.Body == nil || fd.Type.Params == nil {
+			continue
+		}
+		info := p.Info(fd)
+		var params []types.Object
+		for _, fl := range fd.Type.Params.List {
+			for _, nm := range fl.Names {
+				if o := info.Defs[nm]; o != nil && isOptSlice(o.Type()) {
+					params = append(params, o)
+				}
+			}
+		}
+		for _, prm := range params {
+			n++
+			rc.Touch(p.FuncName(fd))
+			key := fmt.Sprintf("%s/%s caller's-option-list-not-written", p.FuncName(fd), prm.Name())
+			var bad ast.Node
+			what := ""
+			ast.Inspect(fd.Body, func(m ast.Node) bool {
+				switch x := m.(type) {
+				case *ast.CallExpr:
+					if core.IsBuiltin(info, x, "append") && len(x.Args) > 0 {
+						a := core.Unparen(x.Args[0])
+						if se, isSl := a.(*ast.SliceExpr); isSl {
+							// append(p[:k], …) with a full slice expression p[:k:k] copies; without, it writes as well
+							if se.Max == nil {
+								a = core.Unparen(se.X)
+							}
+						}
+						if core.ObjOf(info, a) == prm && bad == nil {
+							bad, what = x, "append("+prm.Name()+", …) stores into the caller's array when the caller passed a shorter view of a longer list"
+						}
+					}
+				case *ast.AssignStmt:
+					for _, l := range x.Lhs {
+						if ix, isIx := core.Unparen(l).(*ast.IndexExpr); isIx && core.ObjOf(info, ix.X) == prm && bad == nil {
+							bad, what = x, "an element of "+prm.Name()+" is assigned: the list is the caller's"
+						}
+					}
+				}
+				return true
+			})
+			if bad != nil {
+				rc.Bad(key, bad.Pos(), "%s: the caller's next call with that list runs what this call left there (its context, its options)", what)
+			} else {
+				rc.OK(key, fd.Pos(), "%s is only ranged over, indexed for reading or handed on", prm.Name())
+			}
+		}
+	}
+	if n < 10 {
+		rc.Unknown("json/option-list-parameters", token.NoPos, "found %d parameters that are lists of option functions, fewer than the 10 confirmed by hand", n)
+	}
+}
